@@ -20,7 +20,16 @@ Record Laws (O : Ops) : Prop := mkLaws {
   L_cis_2pi : cexp O (cmul O (ci O) (cmul O (cofZ O 2%Z) (cpi O))) = c1 O;
   L_pi_nz : cpi O <> c0 O;
   L_re_add : forall x y, cre O (cadd O x y) = cadd O (cre O x) (cre O y);
-  L_re_0 : cre O (c0 O) = c0 O
+  L_re_0 : cre O (c0 O) = c0 O;
+  (* reals are the fixed points of cre; they form a subfield and cre is linear over them *)
+  L_re_ofZ : forall z, cre O (cofZ O z) = cofZ O z;
+  L_re_idem : forall x, cre O (cre O x) = cre O x;
+  L_re_mul_real : forall s x, cre O s = s -> cre O (cmul O s x) = cmul O s (cre O x);
+  L_re_inv_real : forall s, cre O s = s -> cre O (cdiv O (c1 O) s) = cdiv O (c1 O) s;
+  (* primitivity of roots of unity: exp(2 pi i k/n) = 1 only when n divides k *)
+  L_root_prim : forall (n : nat) (k : Z), n <> 0%nat ->
+     cexp O (cmul O (ci O) (cmul O (cmul O (cofZ O 2%Z) (cpi O)) (cdiv O (cofZ O k) (cofZ O (Z.of_nat n))))) = c1 O ->
+     (Z.of_nat n | k)%Z
 }.
 
 Section Facts.
@@ -69,3 +78,8 @@ End Facts.
 (* rewrite the integer literals the model uses into sums of 1 so that ring/field see them *)
 Ltac zlits O L :=
   unfold cofQ; rewrite ?(ofZ_6 O L), ?(ofZ_3 O L), ?(ofZ_2 O L), ?(L_ofZ_1 O L), ?(L_ofZ_0 O L).
+
+(* side conditions left by `field`: products of hypotheses and small numerals *)
+Ltac solve_nz O L :=
+  repeat split; repeat (apply (mul_nz O L));
+  try first [ assumption | apply (one_nz O L) | apply (two_nz O L) | apply (three_nz O L) | apply (three_nz' O L) ].
